@@ -22,7 +22,7 @@ from .. import indexmap as I
 from .. import flow as Fl
 from .. import callargs as CA
 from ..compdb import AnalysisBroken
-from . import sizemodel as S
+from . import sizemodel as S, gridmodel as G
 
 LEVEL = "other"
 
@@ -33,13 +33,17 @@ FUNCS = ["integrate", "average", "variance", "normalize", "updateXProjection", "
 def run(chk, prog):
     chk.assume("exact real arithmetic", "nx == ny and delta0 == delta1 (one Simpson weight vector serves both axes; lemma of C03/size model)")
     S.lemmas(chk, prog)
+    G.axis_lemmas(chk, prog)
     N, B = S.N, S.B
     scans = {}
     nsub = 0
     for nm in FUNCS:
         fn = prog.fn("vfps::PhaseSpace::" + nm)
         chk.used(fn)
-        s = scans[nm] = I.scan(fn)
+        holder = {}
+        s = scans[nm] = I.Scanner(fn, hooks=[G.make_axis_hook(lambda: holder.get("s"))])
+        holder["s"] = s
+        s.run()
         A.require(not s.noncanonical_loops, "PhaseSpace::%s: non-canonical loop" % nm)
         for a in s.accesses:
             if a.base not in BUNCH_DIM or a.idx is None:
@@ -74,7 +78,7 @@ def run(chk, prog):
         nsym = acc.loops[0].sym
         isym = acc.loops[-1].sym
         P = sp.IndexedBase("_projection")[axis, nsym, isym]
-        q = sp.Function("_qp")(sp.Symbol("this", real=True), axis, isym)
+        q = G.QP(axis, isym)
         mean = sp.IndexedBase("_moment")[axis, 0, nsym]
         want = P * q if not with_mean else P * (q - mean) ** 2
         chk.check(z.value == 0 and acc.value is not None and sp.expand(acc.value - want) == 0, "R2", A.loc(fn, {"line": acc.line}),
@@ -91,7 +95,7 @@ def run(chk, prog):
         mx = [a for a in s.accesses if a.kind == "store" and a.base == "maxi"]
         okm = len(mx) == 1 and mx[0].value is not None and "axis == 0" in str(mx[0].value) and sp.expand(S.norm(mx[0].value) - N) == 0
         chk.check(okm, "R2", A.loc(fn, {"line": mx[0].line if mx else fn["line"]}), "%s: axis length is nx for axis 0, ny for axis 1 (== N)" % nm, "%s:maxi" % nm)
-        wf = sp.Function("getDelta")(sp.Symbol("this", real=True), axis) / sp.IndexedBase("_filling")[nsym]
+        wf = G.DELTA(axis) / sp.IndexedBase("_filling")[nsym]
         chk.check(fac.value is not None and sp.simplify(fac.value - wf) == 0, "R2", A.loc(fn, {"line": fac.line}),
                   "%s: normalised by delta(axis)/filling[n] (got %s)" % (nm, fac.value), "%s:factor:%s" % (nm, fac.value))
         st = [a for a in s.accesses if a.kind == "store" and a.base == target[0] and a.idx is not None and a.idx[1] == target[1]]
@@ -115,14 +119,25 @@ def run(chk, prog):
     fi = prog.fn("vfps::PhaseSpace::integrate")
     si = scans["integrate"]
     st = [a for a in si.accesses if a.kind == "store" and a.base == "_filling" and a.idx is not None]
-    ok = len(st) == 1 and st[0].value is not None and str(st[0].value).replace(" ", "") == "std_inner_product(begin(_projection[0][n]),end(_projection[0][n]),begin(_ws),0)"
+    kk = I.K_
+    Pb, Wb, Fb, Db = sp.IndexedBase("_projection"), sp.IndexedBase("_ws"), sp.IndexedBase("_filling"), sp.IndexedBase("_data")
+
+    def is_sum(v, term, sizes):
+        """v == SUM(term, 0, hi) with hi one of the accepted spellings of the full extent"""
+        if v is None or v.func != I.SUM:
+            return False
+        t, lo, hi = v.args
+        return sp.expand(t - term) == 0 and lo == 0 and any(sp.expand(S.norm(hi) - S.norm(z)) == 0 for z in sizes)
+    nfs = st[0].loops[0].sym if st and st[0].loops else sp.Symbol("n", integer=True)
+    ok = len(st) == 1 and st[0].idx == (nfs,) and is_sum(st[0].value, Pb[0, nfs, kk] * Wb[kk], [I.SIZE(Pb[0, nfs]), N, sp.Symbol("_nmeshcellsX", real=True)])
     chk.check(ok, "R2", A.loc(fi, {"line": st[0].line if st else fi["line"]}), "filling[n] = <P[0][n], ws> (%s)" % (st[0].value if st else None), "integrate:filling")
     it = [a for a in si.accesses if a.kind == "store" and a.base == "_integral"]
-    ok = len(it) == 1 and it[0].value is not None and str(it[0].value).replace(" ", "") == "std_accumulate(begin(_filling),end(_filling),0)" and not it[0].loops
+    ok = len(it) == 1 and is_sum(it[0].value, Fb[kk], [I.SIZE(sp.Symbol("_filling", real=True)), B, sp.Symbol("_nbunches", real=True)]) and not it[0].loops
     chk.check(ok, "R2", A.loc(fi, {"line": it[0].line if it else fi["line"]}), "integral = sum of all filling[n] (%s)" % (it[0].value if it else None), "integrate:integral")
     fx = prog.fn("vfps::PhaseSpace::updateXProjection")
     st = [a for a in scans["updateXProjection"].accesses if a.kind == "store" and a.base == "_projection"]
-    ok = len(st) == 1 and st[0].idx[0] == 0 and str(st[0].value).replace(" ", "") == "std_inner_product(begin(_data[n][x]),end(_data[n][x]),begin(_ws),0)"
+    ok = len(st) == 1 and st[0].idx[0] == 0 and len(st[0].idx) == 3 and \
+        is_sum(st[0].value, Db[st[0].idx[1], st[0].idx[2], kk] * Wb[kk], [I.SIZE(Db[st[0].idx[1], st[0].idx[2]]), N, sp.Symbol("_nmeshcellsY", real=True)])
     chk.check(ok, "R2", A.loc(fx, {"line": st[0].line if st else fx["line"]}), "P[0][n][x] = <data[n][x][.], ws> (%s)" % (st[0].value if st else None), "updateXProjection:formula")
     xl = [L for L in st[0].loops if L.name == "x"] if st else []
     chk.check(len(xl) == 1 and xl[0].lo == 0 and sp.expand(S.norm(xl[0].hi) - N) == 0, "R2", fx.where, "X projection computed for all x", "updateXProjection:range")
@@ -137,8 +152,11 @@ def run(chk, prog):
     chk.check(ok, "R2", fy.where, "P[1][n][y] = sum_x data[n][x][y]*ws[x], started at 0, over the full ranges", "updateYProjection:formula")
     fw = prog.fn("vfps::PhaseSpace::simpsonWeights")
     chk.used(fw)
-    sw = I.scan(fw)
-    h = sp.Function("getDelta")(sp.Symbol("this", real=True), 0) / 3
+    holderw = {}
+    sw = I.Scanner(fw, hooks=[G.make_axis_hook(lambda: holderw.get("s"))])
+    holderw["s"] = sw
+    sw.run()
+    h = G.DELTA(0) / 3
     st = [a for a in sw.accesses if a.kind == "store" and a.base == "rv" and a.idx is not None]
     first = [a for a in st if a.idx[0] == 0]
     last = [a for a in st if sp.expand(S.norm(a.idx[0]) - (N - 1)) == 0 and not a.loops]
@@ -196,10 +214,10 @@ def run(chk, prog):
     mc = main_c[0]
     chk.used(mc)
     smc = I.scan(mc)
-    cpy = [c for c in smc.calls if c.callee == "std::copy"]
-    ok = len(cpy) == 1 and cpy[0].args[0] is not None and str(cpy[0].args[0]) == "data" and sp.expand(S.norm(cpy[0].args[1] - cpy[0].args[0]) - N * N * B) == 0 and \
-        "data(_data)" in str(cpy[0].args[2]) and any("data != nullptr" in A.show(g_).replace("(", "").replace(")", "") and pol for g_, pol in cpy[0].guards if isinstance(g_, dict))
-    chk.check(ok, "R4", A.loc(mc, {"line": cpy[0].line if cpy else mc["line"]}), "with data given the constructor copies all B*N*N values into _data", "ctor:copy-data")
+    cpy = I.copies(smc)
+    ok = len(cpy) == 1 and str(cpy[0]["src"]) == "data" and sp.expand(S.norm(cpy[0]["length"]) - N * N * B) == 0 and \
+        "data(_data)" in str(cpy[0]["dst"]) and any("data != nullptr" in A.show(g_).replace("(", "").replace(")", "") and pol for g_, pol in cpy[0]["call"].guards if isinstance(g_, dict))
+    chk.check(ok, "R4", A.loc(mc, {"line": cpy[0]["call"].line if cpy else mc["line"]}), "with data given the constructor copies all B*N*N values into _data", "ctor:copy-data")
     gm = Fl.CFG(mc)
     for callee in ("updateXProjection", "updateYProjection", "integrate"):
         mn, mx = gm.count_on_paths(Fl.is_call_to("vfps::PhaseSpace::" + callee))
